@@ -278,7 +278,7 @@ def run_lib(desc):
     viols = []
     hashes = set()
     samples = []
-    obs = probe().run([lc.calc_case(t) for t, _ in cases])
+    obs = probe().run([lc.calc_case(t, front=True) for t, _ in cases])
     for (txs, cls), o in zip(cases, obs):
         vs = classify(txs, o, cls, cnt)
         hashes.add(sha(txs)[:16])
@@ -434,7 +434,7 @@ def replay(case):
                        "signature": "covered-refused:" + residue_class(case["txs"], r["stderr"])})
         return vs, r
     cnt = Counter()
-    o = probe().one(lc.calc_case(case["txs"]))
+    o = probe().one(lc.calc_case(case["txs"], front=True))
     vs = classify(case["txs"], o, case.get("cls", "replay"), cnt)
     for x in vs:
         x["signature"] = sig(x)
